@@ -62,6 +62,19 @@ def specOf (blks : List (List Rat)) (size? hop? : Option Nat) (wnd : WndArg Rat)
                     ("gain", ratToJson g)]
 
 
+/-- the conclusion of `ola_blocks_inverse` / `stft_identity` where their hypotheses hold
+    (hop ∣ size, hop-shifted copies of g*ws*wa sum to one): the covered samples are the input -/
+def coveredSpec (size hop : Nat) (g : Rat) (wsl wal : List Rat) (sig : List Rat) : Json :=
+  if hop = 0 ∨ size = 0 ∨ size % hop ≠ 0 then Json.null else
+  let cola := (List.range hop).all fun jj =>
+    sumTo (size / hop) (fun i => g * (wsl.getD (jj + i * hop) 0 * wal.getD (jj + i * hop) 0)) == 1
+  if cola then
+    let m := (ALV.C08.blocksClosed size hop (0 : Rat) sig).length
+    arr (fun n => Json.arr [natToJson n, ratToJson (sig.getD n 0)])
+      ((List.range (m * hop)).filter fun n => size - hop ≤ n)
+  else Json.null
+
+
 /-! ### stft -/
 
 def getPV (j : Json) : Except String PV :=
@@ -263,16 +276,7 @@ def stftEntry (j : Json) : Except String Json := do
           let ws := truthy ws0
           let wsOk : Bool := match ws with | none => true | some l => l.length == size
           if identity && osz == size && ohop == hop && hop ≤ size && size % hop == 0 && wsOk then
-            let g := gainSpec size hop c.normalize ws
-            let wsl := wndSpec size ws
-            let wal := wndSpec size wa
-            let cola := (List.range hop).all fun jj =>
-              sumTo (size / hop) (fun i => g * (wsl.getD (jj + i * hop) 0 * wal.getD (jj + i * hop) 0)) == 1
-            if cola then
-              let m := (ALV.C08.blocksClosed size hop (0 : Rat) sig).length
-              arr (fun n => Json.arr [natToJson n, ratToJson (sig.getD n 0)])
-                ((List.range (m * hop)).filter fun n => size - hop ≤ n)
-            else Json.null
+            coveredSpec size hop (gainSpec size hop c.normalize ws) (wndSpec size ws) (wndSpec size wa) sig
           else Json.null
         | _, _ => Json.null
       | _, _ => Json.null
@@ -289,6 +293,32 @@ def handle (entry : String) (j : Json) : Except String Json := do
     let normalize ← getBool (fieldD j "normalize" (Json.bool true))
     let m := overlapAddList blks size? hop? wnd normalize
     pure <| Json.mkObj [("model", outJson m), ("spec", specOf blks size? hop? wnd normalize)]
+  | "ola_sig" =>
+    -- block a signal with the C08 model, overlap-add the blocks
+    let sig ← getList getRat (← field j "sig")
+    let bsize ← getNat (← field j "bsize")
+    let bhop ← getNat (← field j "bhop")
+    if bsize = 0 ∨ bhop = 0 then throw "bsize and bhop must be positive"
+    let size? ← optNat j "size"
+    let hop? ← optNat j "hop"
+    let wnd ← getWnd (optField j "wnd")
+    let normalize ← getBool (fieldD j "normalize" (Json.bool true))
+    let blks := ALV.C08.blocks bsize bhop (0 : Rat) sig
+    let m := overlapAddList blks size? hop? wnd normalize
+    let covered : Json :=
+      match resolveWnd bsize wnd with
+      | .ok w0 =>
+        let w := truthy w0
+        let wOk : Bool := match w with | none => true | some l => l.length == bsize
+        if wOk && (size? == none || size? == some bsize) && hop?.getD bsize == bhop && bhop ≤ bsize
+            && !(size? == none && blks.isEmpty) then
+          coveredSpec bsize bhop (gainSpec bsize bhop normalize w) (wndSpec bsize w)
+            (List.replicate bsize 1) sig
+        else Json.null
+      | .error _ => Json.null
+    let spec := specOf (ALV.C08.blocksClosed bsize bhop (0 : Rat) sig) size? hop? wnd normalize
+    pure <| Json.mkObj [("model", outJson m), ("spec", spec), ("covered", covered),
+      ("n_blocks", natToJson blks.length)]
   | "stft" => stftEntry j
   | _ => throw s!"C09: unknown entry {entry}"
 
